@@ -561,6 +561,15 @@ def c18(run):
     for k in range(1, 5 if t else 4):
         allk = list(itertools.product(pairs[:6] if k >= 3 else pairs, repeat=k))
         inputs += [list(s) for s in (allk if len(allk) < 300 else rnd.sample(allk, 300 if t else 80))]
+    # the same shapes under other vertex names: numbers, names that are prefixes of each other
+    # (followed by a digit / an upper-case letter / an underscore), mixed case
+    pools = [["1", "10", "2", "12"], ["v1", "v10", "v2", "v11"], ["A", "AB", "B", "a"], ["x", "x_c0", "x_c1", "y"]]
+    renamed = []
+    for g in rnd.sample(inputs[1:], min(len(inputs) - 1, 240 if t else 60)):
+        pool = rnd.choice(pools)
+        ren = dict(zip(names, pool))
+        renamed.append([(ren[x], ren[y]) for x, y in g])
+    inputs += renamed
     conv_items = []
     for gi, g in enumerate(inputs):
         f = os.path.join(d, "g%d.csv" % gi)
